@@ -17,6 +17,10 @@ CLAIMED["C13"] = ("DESIGN.md#c13", "Lean theorems over a model of both duration 
          "Lean 4 proof over parser models + differential correspondence run")
 CLAIMED["C18"] = ("DESIGN.md#c18", "Locale dictionaries, templates and CLDR plural/ordinal lambdas of all 27 locales are regenerated into Lean on every run; theorems: plural/ordinal ranges for all n, totality of every (locale, unit, class, flag) lookup by kernel evaluation, format_diff/in_words/locale tokens total and brace-free for all inputs, unit selection, rounding, direction markers, within-one-unit; correspondence on ~5x10^5 ops x 2 backends; oracle re-states phrase/direction/count independently",
          "Lean 4 proof over regenerated locale data + hand model of DifferenceFormatter, differential correspondence run")
+CLAIMED["C04"] = ("DESIGN.md#c04", "Lean theorems: add_duration = month-index arithmetic + min(day, daysInMonth) clamp (generated table) + linear rest; DateTime.add calendar branch = that spec followed by the C02 construction rules (unique/repeated/skipped targets); add(neg)=subtract; dt - d = dt + (-d) = subtract(components) for every Duration signature; Date variants; correspondence ~9x10^4 ops x 2 backends; oracle = independent month arithmetic + tz-table normalisation",
+         "Lean 4 proof over add_duration/DateTime.add model + differential correspondence run")
+CLAIMED["C05"] = ("DESIGN.md#c05", "Lean theorems: Interval length = instant(end) - instant(start) for same-object/same-name/different zones and either fold on every well-formed zone table; in_* truncate toward zero; swap negates; absolute = magnitude outside the wall-order region (known finding F12, with Lean counterexample); correspondence ~8x10^4 ops x 2 backends; oracle = integer instants from the tz table, exact below 2^33 s, 64 us tolerance beyond",
+         "Lean 4 proof over Interval.__new__ model + differential correspondence run")
 NA = {}
 def main():
     props = [json.loads(l) for l in open(os.path.join(ROOT, "properties.jsonl"))]
